@@ -10,7 +10,7 @@ from simkit.world import digest
 ID = "C26"
 LEVEL = "exploration"
 ENGINE = "simkit/proxy-world"
-QUICK_RUNS = 15000
+QUICK_RUNS = 40000
 QUICK_BUDGET_S = 150
 THOROUGH_BUDGET_S = 900
 CHUNK = 50
